@@ -160,7 +160,7 @@ def san_run(args):
         return ("compile-failed", "", c.stderr.decode(errors="replace")[-600:])
     try:
         r = subprocess.run([exe], stdout=subprocess.PIPE, stderr=subprocess.PIPE, timeout=60,
-                           env=dict(os.environ, ASAN_OPTIONS="detect_leaks=0:abort_on_error=0", UBSAN_OPTIONS="halt_on_error=1:print_stacktrace=0"))
+                           env=dict(os.environ, ASAN_OPTIONS="detect_leaks=0:abort_on_error=0", UBSAN_OPTIONS="halt_on_error=1:print_stacktrace=0", NANO_GC_THRESHOLD_MB="1"))
     except subprocess.TimeoutExpired:
         return ("run-timeout", "", "")
     err = r.stderr.decode(errors="replace")
